@@ -86,10 +86,6 @@ Print Assumptions C10_old_subprotocol_test_refuted.
 (* non-vacuity: the RFC 6455 sample response to the sample key, delivered in 1-byte reads
    through a 16-byte buffer, followed by a frame: success, subprotocol "chat", the frame is what
    the remaining reader holds; a second subprotocol line that was never requested is refused *)
-Definition c10_sample_resp (extra : list byte) : list byte :=
-  bs "HTTP/1.1 101 Switching Protocols" ++ crlf ++ bs "Upgrade: websocket" ++ crlf
-  ++ bs "Connection: Upgrade" ++ crlf ++ bs "Sec-WebSocket-Accept: s3pPLMBiTxaQ9kYGzzhZRbK+xOo=" ++ crlf
-  ++ bs "Sec-WebSocket-Protocol: chat" ++ crlf ++ extra ++ crlf ++ [129; 2; 104; 105].
 Example C10_nonvacuous :
   let cfg := mkDcfg [bs "chat"; bs "superchat"] [] [] [] (fun _ _ => false) in
   let nonce := bs "dGhlIHNhbXBsZSBub25jZQ==" in
